@@ -151,6 +151,18 @@ func (ctx *formatCtx) insert(name string) {
 	ctx.scope.Insert(o)
 }
 
+// defineIdents declares the identifiers on the left side of a := or range clause.
+func (ctx *formatCtx) defineIdents(tok token.Token, exprs ...ast.Expr) {
+	if tok != token.DEFINE {
+		return
+	}
+	for _, expr := range exprs {
+		if id, ok := expr.(*ast.Ident); ok && id.Name != "_" {
+			ctx.insert(id.Name)
+		}
+	}
+}
+
 func (ctx *formatCtx) enterBlock() *types.Scope {
 	old := ctx.scope
 	ctx.scope = types.NewScope(old, token.NoPos, token.NoPos, "")
